@@ -23,7 +23,7 @@ def stateless (f : List String → String) : Family := { σ := Unit, init := (),
 
 def families : List (String × Family) := [
   ("effect", stateless Casbin.Driver.Effect.handle),
-  ("policy", { σ := Casbin.Driver.Policy.St, init := {}, step := Casbin.Driver.Policy.step }),
+  ("policy", { σ := Casbin.Driver.Policy.St, init := {}, step := Casbin.Driver.Policy.stepR }),
   ("enf", { σ := Casbin.Driver.Enf.DSt, init := {}, step := Casbin.Driver.Enf.step }),
   ("matcher", { σ := Casbin.Driver.Matcher.Table, init := [], step := Casbin.Driver.Matcher.step }),
   ("persist", { σ := Casbin.Driver.Persist.DState, init := {}, step := Casbin.Driver.Persist.handle }),
